@@ -205,4 +205,487 @@ theorem text_size_agree (env : Env) (s : String) (tbl : Option Tbl) (info : Tok)
     | none => simp [ha] at hp
     | some a => simp only [ha, Except.ok.injEq, Prod.mk.injEq] at hp; rw [hp.2]
 
+
+/-! ### the two passes walk the same addresses (whole node lists)
+
+`Program.resolve_labels` gives every statement an address by adding up sizes (`pc_after`); `Program.emit`
+gives it the address reached by adding up emitted bytes.  `Agree` names the only ways a single node can make the
+two differ — an operand whose *inferred* width differs between the passes, a `*=` / `@=` whose target evaluates
+differently, a zero-length statement at an address that advancing by 0 would move (an address below its bank
+window) — and `pass_addresses_agree` shows that these are the only ways: whenever every node of a list
+satisfies `Agree` in the states the two passes reach it in, both passes reach every node at the same address. -/
+
+/-- emission advances the run address by the emitted bytes (not at all for an empty emission) -/
+def advance (a : Address) (bs : List Nat) : Except Err Address :=
+  if bs.isEmpty then .ok a else addrAdd a bs.length
+
+/-- the per-node side conditions (see above); `rp` / `re` are the resolver states of the label pass and of
+    emission at that node, `pc` the address the label pass reached it at -/
+def Agree (env : Env) (n : Node) (rp re : Resolver) (pc : Address) : Prop :=
+  match n with
+  | .opcode _ (some w) _ _ _ _ => w = 1 ∨ w = 2 ∨ w = 3
+  | .opcode _ none _ _ (some ve) info =>
+      ∀ v1 v2, getValue env rp ve info = .ok v1 → getValue env re ve info = .ok v2 → operandSize v1 = operandSize v2
+  | .codePos e info | .reloc e info =>
+      rp.getBus = re.getBus ∧ ∀ v1 v2, getValue env rp e info = .ok v1 → getValue env re e info = .ok v2 → v1 = v2
+  | .data w _ _ => w = 0 → addrAdd pc 0 = .ok pc
+  | .ascii s => asciiBytes s = [] → addrAdd pc 0 = .ok pc
+  | .text s tbl info => textBytes s tbl info = .ok [] → addrAdd pc 0 = .ok pc
+  | .binary content _ => content = [] → addrAdd pc 0 = .ok pc
+  | _ => True
+
+theorem advance_of_len (pc pc' : Address) (bs : List Nat) (h : addrAdd pc bs.length = .ok pc')
+    (hz : bs = [] → addrAdd pc 0 = .ok pc) : advance pc bs = .ok pc' := by
+  unfold advance
+  cases bs with
+  | nil =>
+    have := hz rfl
+    simp only [List.length_nil] at h
+    rw [this] at h
+    simp only [List.isEmpty_nil, ↓reduceIte]
+    exact h
+  | cons b t => simpa using h
+
+theorem useNextScope_reloc (r r' : Resolver) (h : r.useNextScope = some r') : r'.reloc = r.reloc := by
+  unfold Resolver.useNextScope at h
+  split at h
+  · cases h; rfl
+  · cases h
+
+theorem restoreScope_reloc (r r' : Resolver) (b : Bool) (h : r.restoreScope b = some r') : r'.reloc = r.reloc := by
+  unfold Resolver.restoreScope at h
+  simp only [Resolver.cur, Resolver.scopeAt] at h
+  split at h
+  · cases h
+  · simp only [Option.some.injEq] at h
+    split at h <;> (rw [← h])
+
+theorem setPosition_reloc (r r' : Resolver) (v : Int) (h : r.setPosition v = some r') :
+    ∃ bus a, r.getBus = some bus ∧ Address.mk? bus v = some a ∧ r'.reloc = a := by
+  unfold Resolver.setPosition at h
+  split at h
+  · cases h
+  · rename_i bus hb
+    split at h
+    · cases h
+    · rename_i a ha
+      cases h
+      exact ⟨bus, a, hb, ha, rfl⟩
+
+theorem wrap_ok (x : Except Err (List Nat)) (info : Tok) (re re' : Resolver) (bs : List Nat)
+    (h : (match x with
+          | .error (.node msg _) => Except.error (nodeErr msg info)
+          | .error er => Except.error er
+          | .ok b => Except.ok (re, b)) = Except.ok (re', bs)) : x = .ok bs ∧ re' = re := by
+  cases x with
+  | error er => cases er <;> simp at h
+  | ok b =>
+    simp only [Except.ok.injEq, Prod.mk.injEq] at h
+    exact ⟨by rw [h.2], h.1.symm⟩
+
+/-- **sizes agree, node by node**: if the label pass gives a node the address `pc` and moves on to `pc'`, and
+    emission of the same node at the same address yields `bs`, then advancing by `bs` arrives at `pc'` too. -/
+theorem node_size_agree (env : Env) (n : Node) (rp rp' re re' : Resolver) (pc pc' : Address) (bs : List Nat)
+    (hreloc : re.reloc = pc) (hag : Agree env n rp re pc)
+    (hp : pcAfter env n rp pc = .ok (rp', pc')) (he : emitNode env n re = .ok (re', bs)) :
+    advance re'.reloc bs = .ok pc' := by
+  cases n with
+  | label name =>
+    simp only [pcAfter, Except.ok.injEq, Prod.mk.injEq] at hp
+    unfold emitNode at he
+    cases hc : checkLabel re name re.reloc with
+    | error e => simp [hc, Except.map] at he
+    | ok u =>
+      simp only [hc, Except.map, Except.ok.injEq, Prod.mk.injEq] at he
+      obtain ⟨rfl, rfl⟩ := he
+      simp [advance, hreloc, hp.2]
+  | symbol name e =>
+    unfold pcAfter at hp
+    cases hv : evalP env rp e with
+    | error er => simp [hv] at hp
+    | ok v =>
+      simp only [hv, Except.ok.injEq, Prod.mk.injEq] at hp
+      simp only [emitNode, Except.ok.injEq, Prod.mk.injEq] at he
+      obtain ⟨rfl, rfl⟩ := he
+      simp [advance, hreloc, hp.2]
+  | symbolConst name v =>
+    simp only [pcAfter, Except.ok.injEq, Prod.mk.injEq] at hp
+    simp only [emitNode, Except.ok.injEq, Prod.mk.injEq] at he
+    obtain ⟨rfl, rfl⟩ := he
+    simp [advance, hreloc, hp.2]
+  | binary content base =>
+    unfold pcAfter at hp
+    cases ha : addrAdd pc content.length with
+    | error er => simp [ha] at hp
+    | ok a =>
+      simp only [ha, Except.ok.injEq, Prod.mk.injEq] at hp
+      unfold emitNode at he
+      cases hc : checkLabel re base re.reloc with
+      | error e => simp [hc, Except.map] at he
+      | ok u =>
+        simp only [hc, Except.map, Except.ok.injEq, Prod.mk.injEq] at he
+        obtain ⟨rfl, rfl⟩ := he
+        rw [hreloc, ← hp.2]
+        exact advance_of_len pc a content ha hag
+  | data w e info =>
+    unfold pcAfter at hp
+    cases ha : addrAdd pc w with
+    | error er => simp [ha, Except.map] at hp
+    | ok a =>
+      simp only [ha, Except.map, Except.ok.injEq, Prod.mk.injEq] at hp
+      unfold emitNode at he
+      cases hv : getValue env re e info with
+      | error er => simp [hv] at he
+      | ok v =>
+        simp only [hv, Except.ok.injEq, Prod.mk.injEq] at he
+        obtain ⟨rfl, rfl⟩ := he
+        rw [hreloc, ← hp.2]
+        apply advance_of_len
+        · rw [C07.leBytes_length]; exact ha
+        · intro hnil
+          have hl := congrArg List.length hnil
+          rw [C07.leBytes_length] at hl
+          exact hag (by simpa using hl)
+  | opcode mn size mode index value info =>
+    unfold pcAfter at hp
+    unfold emitNode at he
+    cases hem : opcodeEmitter env mn mode index info with
+    | error er => simp [hem] at hp
+    | ok e =>
+      simp only [hem] at hp he
+      cases hk : e.kind with
+      | implied =>
+        simp only [hk] at hp he
+        cases hb : emitEntry e size none with
+        | error er => simp [hb, Except.map] at he
+        | ok b =>
+          simp only [hb, Except.map, Except.ok.injEq, Prod.mk.injEq] at he
+          obtain ⟨rfl, rfl⟩ := he
+          have hl := implied_size_agree e size b hk hb
+          simp only [supposedLength, hk, Except.ok.injEq] at hl
+          cases ha : addrAdd pc 1 with
+          | error er => simp [ha, Except.map] at hp
+          | ok a =>
+            simp only [ha, Except.map, Except.ok.injEq, Prod.mk.injEq] at hp
+            rw [hreloc, ← hp.2]
+            apply advance_of_len
+            · rw [← hl]; exact ha
+            · intro hnil; rw [hnil] at hl; simp only [List.length_nil] at hl; omega
+      | relative =>
+        simp only [hk] at hp he
+        cases value with
+        | none => simp at he
+        | some ve =>
+          simp only at he
+          cases hv : getValue env re ve info with
+          | error er => simp [hv] at he
+          | ok v =>
+            simp only [hv] at he
+            cases hb : emitRelative re e v with
+            | error er => simp [hb, Except.map] at he
+            | ok b =>
+              simp only [hb, Except.map, Except.ok.injEq, Prod.mk.injEq] at he
+              obtain ⟨rfl, rfl⟩ := he
+              have hl := relative_size_agree re e v b hb
+              cases ha : addrAdd pc 2 with
+              | error er => simp [ha, Except.map] at hp
+              | ok a =>
+                simp only [ha, Except.map, Except.ok.injEq, Prod.mk.injEq] at hp
+                rw [hreloc, ← hp.2]
+                apply advance_of_len
+                · rw [hl]; exact ha
+                · intro hnil; rw [hnil] at hl; simp only [List.length_nil] at hl; omega
+      | sized =>
+        simp only [hk] at hp he
+        cases value with
+        | none => simp at he
+        | some ve =>
+          simp only at he hp
+          cases size with
+          | some w =>
+            simp only at hp he
+            have hw : w = 1 ∨ w = 2 ∨ w = 3 := hag
+            split at he
+            · cases he
+            · cases hv : getValue env re ve info with
+              | error er => simp [hv] at he
+              | ok v =>
+                simp only [hv] at he
+                obtain ⟨hb, rfl⟩ := wrap_ok _ info re re' bs he
+                (
+                  have hl := sized_suffix_size_agree e w v bs hk hw hb
+                  simp only [supposedLength, hk, guessSize, Except.ok.injEq] at hl
+                  cases ha : addrAdd pc (1 + w) with
+                  | error er => simp [ha, Except.map] at hp
+                  | ok a =>
+                    simp only [ha, Except.map, Except.ok.injEq, Prod.mk.injEq] at hp
+                    rw [hreloc, ← hp.2]
+                    apply advance_of_len
+                    · rw [← hl]; exact ha
+                    · intro hnil; rw [hnil] at hl; simp only [List.length_nil] at hl; omega)
+          | none =>
+            simp only at hp he
+            cases hv1 : getValue env rp ve info with
+            | error er => simp [hv1] at hp
+            | ok v1 =>
+              simp only [hv1] at hp
+              cases hv : getValue env re ve info with
+              | error er => simp [hv] at he
+              | ok v =>
+                simp only [hv, Bool.false_eq_true, ↓reduceIte] at he
+                obtain ⟨hb, rfl⟩ := wrap_ok _ info re re' bs he
+                (
+                  have hl := sized_inferred_size_agree e v bs hk hb
+                  simp only [supposedLength, hk, guessSize, Except.ok.injEq] at hl
+                  have hsame : operandSize v1 = operandSize v := hag v1 v hv1 hv
+                  cases ha : addrAdd pc (1 + operandSize v1) with
+                  | error er => simp [ha, Except.map] at hp
+                  | ok a =>
+                    simp only [ha, Except.map, Except.ok.injEq, Prod.mk.injEq] at hp
+                    rw [hreloc, ← hp.2]
+                    apply advance_of_len
+                    · rw [← hl, ← hsame]; exact ha
+                    · intro hnil; rw [hnil] at hl; simp only [List.length_nil] at hl; omega)
+  | codePos e info =>
+    unfold pcAfter at hp
+    unfold emitNode at he
+    obtain ⟨hbus, hval⟩ := hag
+    cases hv1 : getValue env rp e info with
+    | error er => simp [hv1] at hp
+    | ok v1 =>
+      cases hv : getValue env re e info with
+      | error er => simp [hv] at he
+      | ok v =>
+        simp only [hv1] at hp
+        simp only [hv] at he
+        cases hs : re.setPosition v with
+        | none => simp [hs] at he
+        | some r2 =>
+          simp only [hs, Except.ok.injEq, Prod.mk.injEq] at he
+          obtain ⟨rfl, rfl⟩ := he
+          obtain ⟨bus, a, hb, ha, hr⟩ := setPosition_reloc re r2 v hs
+          have hvv := hval v1 v hv1 hv
+          rw [hbus, hb] at hp
+          simp only [hvv, ha, Except.ok.injEq, Prod.mk.injEq] at hp
+          simp [advance, hr, hp.2]
+  | reloc e info =>
+    unfold pcAfter at hp
+    unfold emitNode at he
+    obtain ⟨hbus, hval⟩ := hag
+    cases hv1 : getValue env rp e info with
+    | error er => simp [hv1] at hp
+    | ok v1 =>
+      cases hv : getValue env re e info with
+      | error er => simp [hv] at he
+      | ok v =>
+        simp only [hv1] at hp
+        simp only [hv] at he
+        cases hs : re.setPosition v with
+        | none => simp [hs] at he
+        | some r2 =>
+          simp only [hs, Except.ok.injEq, Prod.mk.injEq] at he
+          obtain ⟨rfl, rfl⟩ := he
+          obtain ⟨bus, a, hb, ha, hr⟩ := setPosition_reloc re r2 v hs
+          have hvv := hval v1 v hv1 hv
+          rw [hbus, hb] at hp
+          simp only [hvv, ha, Except.ok.injEq, Prod.mk.injEq] at hp
+          simp [advance, hr, hp.2]
+  | includeIps blocks =>
+    simp only [pcAfter, Except.ok.injEq, Prod.mk.injEq] at hp
+    simp only [emitNode, Except.ok.injEq, Prod.mk.injEq] at he
+    obtain ⟨rfl, rfl⟩ := he
+    simp [advance, hreloc, hp.2]
+  | scopeEnter =>
+    unfold pcAfter at hp
+    unfold emitNode at he
+    cases h1 : rp.useNextScope with
+    | none => simp [h1] at hp
+    | some r1 =>
+      cases h2 : re.useNextScope with
+      | none => simp [h2] at he
+      | some r2 =>
+        simp only [h1, Except.ok.injEq, Prod.mk.injEq] at hp
+        simp only [h2, Except.ok.injEq, Prod.mk.injEq] at he
+        obtain ⟨rfl, rfl⟩ := he
+        simp [advance, useNextScope_reloc re r2 h2, hreloc, hp.2]
+  | scopePop =>
+    unfold pcAfter at hp
+    unfold emitNode at he
+    cases h1 : rp.restoreScope true with
+    | none => simp [h1] at hp
+    | some r1 =>
+      cases h2 : re.restoreScope false with
+      | none => simp [h2] at he
+      | some r2 =>
+        simp only [h1, Except.ok.injEq, Prod.mk.injEq] at hp
+        simp only [h2, Except.ok.injEq, Prod.mk.injEq] at he
+        obtain ⟨rfl, rfl⟩ := he
+        simp [advance, restoreScope_reloc re r2 false h2, hreloc, hp.2]
+  | table =>
+    simp only [pcAfter, Except.ok.injEq, Prod.mk.injEq] at hp
+    simp only [emitNode, Except.ok.injEq, Prod.mk.injEq] at he
+    obtain ⟨rfl, rfl⟩ := he
+    simp [advance, hreloc, hp.2]
+  | text s tbl info =>
+    unfold pcAfter at hp
+    unfold emitNode at he
+    cases ht : textBytes s tbl info with
+    | error er => simp [ht] at hp
+    | ok tb =>
+      simp only [ht, Except.map, Except.ok.injEq, Prod.mk.injEq] at he hp
+      obtain ⟨rfl, rfl⟩ := he
+      cases ha : addrAdd pc tb.length with
+      | error er => simp [ha] at hp
+      | ok a =>
+        simp only [ha, Except.ok.injEq, Prod.mk.injEq] at hp
+        rw [hreloc, ← hp.2]
+        apply advance_of_len _ _ _ ha
+        intro hnil
+        exact hag (by rw [ht, hnil])
+  | ascii s =>
+    unfold pcAfter at hp
+    simp only [emitNode, Except.ok.injEq, Prod.mk.injEq] at he
+    obtain ⟨rfl, rfl⟩ := he
+    cases ha : addrAdd pc (asciiBytes s).length with
+    | error er => simp [ha, Except.map] at hp
+    | ok a =>
+      simp only [ha, Except.map, Except.ok.injEq, Prod.mk.injEq] at hp
+      rw [hreloc, ← hp.2]
+      exact advance_of_len _ _ _ ha hag
+
+/-- after one iteration of the emission loop the run address is the one emission advanced to -/
+theorem emitStep_reloc (env : Env) (n : Node) (st st' : EmitState) (h : emitStep env n st = .ok st') :
+    ∃ r1 bs, emitNode env n st.r = .ok (r1, bs) ∧ advance r1.reloc bs = .ok st'.r.reloc := by
+  obtain ⟨r1, bs, hem, _, hnil, hne, _, _⟩ := emitStep_spec env n st st' h
+  refine ⟨r1, bs, hem, ?_⟩
+  unfold advance
+  cases bs with
+  | nil => simp [hnil rfl]
+  | cons b t =>
+    obtain ⟨a', ha, hst⟩ := hne (by simp)
+    simp only [List.isEmpty_cons, Bool.false_eq_true, ↓reduceIte, addrAdd, ha, hst]
+
+/-- the side conditions along the two runs over a node list (the label pass skips `=` symbols) -/
+def AgreeAll (env : Env) : List Node → Resolver → Address → EmitState → Prop
+  | [], _, _, _ => True
+  | n :: ns, rp, pc, st =>
+    (n.isSymbol = false → Agree env n rp st.r pc) ∧
+    ∀ rp' pc' st', (if n.isSymbol then (rp', pc') = (rp, pc) else pcAfter env n rp pc = .ok (rp', pc')) →
+      emitStep env n st = .ok st' → AgreeAll env ns rp' pc' st'
+
+/-- **the passes agree on every address**: label resolution (first loop of `resolve_labels`) and emission,
+    started at the same address on the same node list, end at the same address — and (`pass_address_at`) reach
+    every node at the same address — provided each node satisfies `Agree` where the passes meet it. -/
+theorem pass_addresses_agree (env : Env) : ∀ (ns : List Node) (rp rp' : Resolver) (pc pc' : Address) (st st' : EmitState),
+    st.r.reloc = pc → AgreeAll env ns rp pc st →
+    passLoop env Node.isSymbol ns rp pc = .ok (rp', pc') → emitLoop env ns st = .ok st' → st'.r.reloc = pc' := by
+  intro ns
+  induction ns with
+  | nil =>
+    intro rp rp' pc pc' st st' hr _ hp he
+    simp only [passLoop, Except.ok.injEq, Prod.mk.injEq] at hp
+    simp only [emitLoop, Except.ok.injEq] at he
+    rw [← he, hr, hp.2]
+  | cons n ns ih =>
+    intro rp rp' pc pc' st st' hr hag hp he
+    obtain ⟨hn, hrest⟩ := hag
+    simp only [emitLoop] at he
+    cases hs : emitStep env n st with
+    | error e => simp [hs] at he
+    | ok s1 =>
+      simp only [hs] at he
+      obtain ⟨r1, bs, hem, hadv⟩ := emitStep_reloc env n st s1 hs
+      simp only [passLoop] at hp
+      by_cases hsym : n.isSymbol = true
+      · simp only [hsym, ↓reduceIte] at hp
+        have hs1 : s1.r.reloc = pc := by
+          cases n <;> simp [Node.isSymbol] at hsym
+          all_goals
+            simp only [emitNode, Except.ok.injEq, Prod.mk.injEq] at hem
+            obtain ⟨rfl, rfl⟩ := hem
+            simp only [advance, List.isEmpty_nil, ↓reduceIte, Except.ok.injEq] at hadv
+            rw [← hadv, hr]
+        exact ih rp rp' pc pc' s1 st' hs1 (hrest rp pc s1 (by simp [hsym]) hs) hp he
+      · have hsym' : n.isSymbol = false := by simpa using hsym
+        simp only [hsym', Bool.false_eq_true, ↓reduceIte] at hp
+        cases hpa : pcAfter env n rp pc with
+        | error e => simp [hpa] at hp
+        | ok q =>
+          obtain ⟨rp1, pc1⟩ := q
+          simp only [hpa] at hp
+          have h1 := node_size_agree env n rp rp1 st.r r1 pc pc1 bs hr (hn hsym') hpa hem
+          rw [hadv] at h1
+          have hs1 : s1.r.reloc = pc1 := by simpa using h1
+          exact ih rp1 rp' pc1 pc' s1 st' hs1 (hrest rp1 pc1 s1 (by simp [hsym', hpa]) hs) hp he
+
+theorem passLoop_split (env : Env) (skip : Node → Bool) (pre : List Node) (n : Node) (post : List Node) :
+    ∀ (r r' : Resolver) (pc pc' : Address), passLoop env skip (pre ++ n :: post) r pc = .ok (r', pc') →
+    ∃ r1 pc1, passLoop env skip pre r pc = .ok (r1, pc1) ∧ passLoop env skip (n :: post) r1 pc1 = .ok (r', pc') := by
+  induction pre with
+  | nil => intro r r' pc pc' h; exact ⟨r, pc, rfl, h⟩
+  | cons m ms ih =>
+    intro r r' pc pc' h
+    simp only [List.cons_append, passLoop] at h ⊢
+    by_cases hs : skip m = true
+    · simp only [hs, ↓reduceIte] at h ⊢
+      exact ih r r' pc pc' h
+    · simp only [hs, Bool.false_eq_true, ↓reduceIte] at h ⊢
+      cases hp : pcAfter env m r pc with
+      | error e => simp [hp] at h
+      | ok q =>
+        obtain ⟨r1, pc1⟩ := q
+        simp only [hp] at h ⊢
+        exact ih r1 r' pc1 pc' h
+
+theorem agreeAll_prefix (env : Env) : ∀ (pre post : List Node) (rp : Resolver) (pc : Address) (st : EmitState),
+    AgreeAll env (pre ++ post) rp pc st → AgreeAll env pre rp pc st := by
+  intro pre
+  induction pre with
+  | nil => intro post rp pc st _; trivial
+  | cons m ms ih =>
+    intro post rp pc st h
+    simp only [List.cons_append, AgreeAll] at h ⊢
+    exact ⟨h.1, fun rp' pc' st' h1 h2 => ih post rp' pc' st' (h.2 rp' pc' st' h1 h2)⟩
+
+/-- **every statement is reached at the same address by both passes**: the address the label pass hands to
+    the node at any position of the list is the run address emission has when it reaches that node — in
+    particular the value a label is given is the address at which the bytes after it are assembled. -/
+theorem pass_address_at (env : Env) (pre : List Node) (n : Node) (post : List Node)
+    (rp rp' : Resolver) (pc pc' : Address) (st st' : EmitState)
+    (hr : st.r.reloc = pc) (hag : AgreeAll env (pre ++ n :: post) rp pc st)
+    (hp : passLoop env Node.isSymbol (pre ++ n :: post) rp pc = .ok (rp', pc'))
+    (he : emitLoop env (pre ++ n :: post) st = .ok st') :
+    ∃ r1 pc1 s1, passLoop env Node.isSymbol pre rp pc = .ok (r1, pc1) ∧ emitLoop env pre st = .ok s1 ∧
+      s1.r.reloc = pc1 := by
+  obtain ⟨r1, pc1, hp1, _⟩ := passLoop_split env Node.isSymbol pre n post rp rp' pc pc' hp
+  obtain ⟨s1, s2, he1, _, _⟩ := emitLoop_split env pre n post st st' he
+  exact ⟨r1, pc1, s1, hp1, he1,
+    pass_addresses_agree env pre rp r1 pc pc1 st s1 hr (agreeAll_prefix env pre (n :: post) rp pc st hag) hp1 he1⟩
+
+/-- a label node therefore records, in the label pass, exactly the address emission later checks it against -/
+theorem label_value_is_run_address (env : Env) (pre : List Node) (name : String) (post : List Node)
+    (rp rp' : Resolver) (pc pc' : Address) (st st' : EmitState)
+    (hr : st.r.reloc = pc) (hag : AgreeAll env (pre ++ .label name :: post) rp pc st)
+    (hp : passLoop env Node.isSymbol (pre ++ .label name :: post) rp pc = .ok (rp', pc'))
+    (he : emitLoop env (pre ++ .label name :: post) st = .ok st') :
+    ∃ r1 pc1 s1, passLoop env Node.isSymbol pre rp pc = .ok (r1, pc1) ∧ emitLoop env pre st = .ok s1 ∧
+      pcAfter env (.label name) r1 pc1 = .ok (r1.addLabel name s1.r.reloc.logical, pc1) := by
+  obtain ⟨r1, pc1, s1, h1, h2, h3⟩ := pass_address_at env pre (.label name) post rp rp' pc pc' st st' hr hag hp he
+  exact ⟨r1, pc1, s1, h1, h2, by simp [pcAfter, h3]⟩
+
+/-- the zero-length side condition of `Agree` holds at every in-window ROM address and every RAM address -/
+theorem zero_ok_rom (A : Address) (hA : A.WF) (wf : C04.BusWF A.bus) (hrom : A.mapping.RomWF)
+    (hwin : Spec.inWindow A.mapping.mask A.logical) : addrAdd A 0 = .ok A := by
+  simp [addrAdd, C04.add_zero_same A hA wf hrom hwin]
+
+theorem zero_ok_ram (A : Address) (hA : A.WF) (hram : A.mapping.ram = true) : addrAdd A 0 = .ok A := by
+  simp [addrAdd, C04.add_zero_ram A hA hram]
+
+/-- nodes whose size is fixed by the node itself need no side condition at all -/
+example (env : Env) (rp re : Resolver) (pc : Address) (info : Tok) (e : PExpr) :
+    Agree env (.data 2 e info) rp re pc ∧ Agree env (.label "l") rp re pc ∧ Agree env .scopeEnter rp re pc ∧
+    Agree env (.opcode "lda" (some 2) .direct none (some e) info) rp re pc := by
+  refine ⟨?_, trivial, trivial, Or.inr (Or.inl rfl)⟩
+  intro h; cases h
+
 end A816.C02
